@@ -340,6 +340,12 @@ class FullRewriter(_SkipAnnotations, ast.NodeTransformer):
             node.module = MODULE_SHIMS[node.module]
         return node
 
+    def visit_Dict(self, node):
+        self.generic_visit(node)
+        if not node.keys and self.opts.get("dictdisplay"):
+            return ast.copy_location(ast.Call(ast.Name("__symx_dict__", ast.Load()), [], []), node)
+        return node
+
     def visit_JoinedStr(self, node):
         self.generic_visit(node)
         if "fstring" not in self.opts:
